@@ -109,7 +109,12 @@ def run_mode(W, cfg):
     theta = W.reals('th', shp)
     maskv = W.reals('mk', shp, nz=True)
     mask = W.array([[maskv[0, 0], 0], [maskv[1, 0], maskv[1, 1]]])
+    rho0, theta0 = rho.copy(), theta.copy()
     Z = W.mod('zernike').zernike(mask, j, normalize=cfg['normalize'], rho=rho, theta=theta)
+    W.ob('caller-supplied rho untouched', rho, rho0)
+    W.ob('caller-supplied theta untouched', theta, theta0)
+    Zagain = W.mod('zernike').zernike(mask, j, normalize=cfg['normalize'], rho=rho, theta=theta)
+    W.ob('same coordinates, second call: same mode', Zagain, Z)
     n, m = zern.noll(j)
     want = []
     for r in range(2):
